@@ -267,6 +267,9 @@ func (sc SimpleColumn) WriteTo(store ReadOnlyFactStore, w io.Writer) error {
 		return ErrTooManyPreds
 	}
 	if sc.Deterministic {
+		// The slice may be the store's own (SimpleColumnStore keeps its header
+		// in file order): sort a copy.
+		preds = append([]ast.PredicateSym(nil), preds...)
 		sort.Slice(preds, func(i, j int) bool {
 			a := preds[i]
 			b := preds[j]
